@@ -31,6 +31,11 @@ var verifC10Progs = [...][]string{
 	{`param p`, `f := func() { return import("a") }`, `f().inc()`, `g := import("gm")`, `g.box.v = p`, `h := func() { return [import("gm").box.v, import("a").get()] }`, `[h(), g.box.v, f().inc()]`},
 	{`param p`, `a := -0.0`, `b := 0.0`, `c := 0`, `d := 1.0`, `e := 1`, `[string(a), string(b), c, d, e, p]`},
 	{`param p`, `g := import("gm")`, `g.box.v = 1`, `b := import("b")`, `b.bump()`, `g2 := import("gm")`, `g2.box.v += p`, `[g.box.v, g2 == g, b.peek()]`},
+	// 16-18: names declared by earlier fragments (const literals, variables) re-bound
+	// in inner scopes of later fragments (parameter, block :=, for-in, catch)
+	{`param p`, `const n = 5`, `double := func(n) { return n * 2 }`, `[double(21), n, double(p)]`},
+	{`param p`, `const k = 3`, `r := 0`, `if p >= 0 { k := p + 1; r = k * 2 }`, `for _, k in [7] { r += k }`, `[r, k, -k]`},
+	{`param p`, `v := 10`, `f := func() { v := p; return v + 1 }`, `try { throw "x" } catch v { p = p + 0 }`, `g := func(v) { return func() { return v } }`, `[f(), v, g(p)()]`},
 }
 
 func verifC10Modules() *ModuleMap {
